@@ -1,4 +1,6 @@
 import Driver.C04
+import Driver.C10R
+import Driver.C09D
 import Driver.C15_87C
 import Driver.C01_Ext
 import Driver.C09X
@@ -37,6 +39,9 @@ partial def loop (h : IO.FS.Stream) (out : IO.FS.Stream) (f : String → String)
   loop h out f
 
 def modes : List (String × (String → String)) := [
+  ("c10r", C10R.handle),
+  ("c09s", C09D.handleSw),
+  ("c09d", C09D.handle),
   ("c15_87", C15_87C.handle),
   ("c01x", C01X.handle),
   ("c09x", C09X.handle),
